@@ -297,7 +297,7 @@ def recvOf (a : Nat) : List Ev → Int
 /-- Bytes sent to address `a` in a trace. -/
 def sentOf (a : Nat) : List Ev → Int
   | [] => 0
-  | .send b n _ _ :: t => (if b = a then n else 0) + sentOf a t
+  | .send b n _ _ _ :: t => (if b = a then n else 0) + sentOf a t
   | _ :: t => sentOf a t
 
 /-- Some datagram from `a` carried a genuine Handshake packet. -/
@@ -327,7 +327,7 @@ private theorem mstep_facts (m m' : Mon) (e : Ev) (h : mstep m e = .ok m') (a : 
       all_goals (repeat' split at h)
       all_goals (try cases h)
       all_goals (simp only [bump, setB, sentOf, recvOf, hsOf, Inv, knownOvershoot, Bool.and_eq_true, decide_eq_true_eq] at *; grind)
-  | send b n byConn c =>
+  | send b n byConn c k =>
     simp only [mstep] at h
     repeat' split at h
     all_goals (try cases h)
@@ -436,7 +436,7 @@ theorem accepted_trace_property (p q : List Ev) (m : Mon) (h : mrun Mon.init (p 
 
 /-- The monitor's credit bookkeeping is the counter model: an accepted connection send within the
 precondition leaves exactly `credit - n`. -/
-theorem monitor_send_exact (m m' : Mon) (a : Nat) (n c : Int) (h : mstep m (.send a n true c) = .ok m')
+theorem monitor_send_exact (m m' : Mon) (a : Nat) (n c k : Int) (h : mstep m (.send a n true c k) = .ok m')
     (hu : m.credit ≠ unlimited) (hp : n ≤ maxSendSize m.credit maxDatagramSize) :
     m'.credit = m.credit - n ∧ c = m.credit - n := by
   have hn : ¬ n < 0 := by intro hn; simp [mstep, hn] at h
@@ -470,9 +470,14 @@ example : AllCPre St.server [.recv 1200, .csend 1200 true, .csend 1200 true, .cs
     NoPadOvershoot St.server [.recv 1200, .csend 1200 true, .csend 1200 true, .csend 1200 true] := by
   decide
 /-- The witness trace of the real code (corpus/C27) is accepted with a non-zero allowance. -/
-example : (match mrun Mon.init [.recv 0 1250 .new false, .send 0 1200 true 2550, .send 0 1200 true 1350,
-    .send 0 1200 true 150, .send 0 1200 true 0] with | .ok m => m.over 0 | .error _ => -1) = 1050 := by decide
-example : (match mrun Mon.init [.recv 0 1200 .new false, .send 0 1200 true 2400, .send 0 1201 true 1199] with
+example : (match mrun Mon.init [.recv 0 1250 .new false, .send 0 1200 true 2550 500, .send 0 1200 true 1350 500,
+    .send 0 1200 true 150 500, .send 0 1200 true 0 150] with | .ok m => m.over 0 | .error _ => -1) = 1050 := by decide
+example : (match mrun Mon.init [.recv 0 1200 .new false, .send 0 1200 true 2400 700, .send 0 1201 true 1199 1201] with
     | .ok _ => "ok" | .error e => e) = "send-exceeds-credit" := by decide
+
+/-- A full 1200-byte datagram of packets (nothing padded) with less credit is NOT excused. -/
+example : (match mrun Mon.init [.recv 0 1250 .new false, .send 0 1200 true 2550 500, .send 0 1200 true 1350 500,
+    .send 0 1200 true 150 500, .send 0 1200 true 0 1200] with | .ok _ => "ok" | .error e => e) = "send-exceeds-credit" := by
+  decide
 
 end NetVerif.Proofs.C27
